@@ -2,8 +2,21 @@ package zzh
 
 import (
 	"bytes"
+	"context"
 	"crypto/sha256"
+	"encoding/binary"
+	"encoding/hex"
+	"fmt"
+	"math"
+	"sort"
+	"strings"
+	"time"
 
+	"github.com/drand/drand/v2/common"
+	"github.com/drand/drand/v2/common/key"
+	"github.com/drand/drand/v2/crypto"
+	mchain "github.com/drand/drand/v2/internal/chain"
+	"github.com/drand/drand/v2/internal/chain/memdb"
 	zz "github.com/drand/drand/v2/internal/zzverif"
 )
 
@@ -21,5 +34,120 @@ func ZZ_Self_hash() {
 	zz.Assert("injective2", !bytes.Equal(hha, hhb) || bytes.Equal(a, b))
 	if bytes.Equal(a, b) {
 		zz.Assert("congruence_on_path", bytes.Equal(hha, hhb))
+	}
+}
+
+func init() { zz.Register("ZZ_Self_translator", ZZ_Self_translator) }
+
+// zzSelfExpected holds, per group, what the NATIVELY COMPILED code computes for the concrete inputs below (the
+// repo's own test vectors for the time functions among them). The engine must compute the same: a difference is
+// an interpreter bug, caught here rather than as a wrong verdict elsewhere. Regenerate with
+// ZZVERIF_TRACE=1 ./check SELF --replay <any file naming ZZ_Self_translator> after a deliberate change.
+var zzSelfExpected = map[string]string{
+	"time": "2 1002 1;2 1002 1;3 1004 2;3 1004 2;1 1000 1;3 1700000098 2;4 1700000147 3;36597206559 1099511627790 36597206558;1234569 1632468090 1234568;1234568 1632468060 1234567;262146 1125904201547775 262145;1;1000;1027;9223371968135299071;9223371968135299071;9223371968135299071;9223371968135299071;9223371968135299071;9223371968135299071;1745431020",
+	"bytes": "00000000000000000000000000000102fffffffffffffffe;123456789;9f64a747e1b97f131fabb6b447296c9b6f0201e79fb3c5356e6c77e89b6a806a;cf63f78cd021a2c2fa87f997c7bd1d44b77bd75db98511110edc6b5695db1aa0;[0 255 16 171 205] true;true;-1 1 true;0000001e000000005f18588a3412",
+	"misc": "true true falsedefaulttrue false;1;1;2;2;3;3;4;4;5;5;6;90 4294967295 3µs 1.5;1700000090 true 5.5s",
+	"lang": "[1 2 2 5 7 9];[node1 node10 node2];3 1 3 3 0;4 -2147483648 2 -3 -1 2 1027",
+	"memdb": "9 25 true 9;3;5;9;12;21;22;23;24;25;true;true",
+}
+
+func zzSelfGroups() map[string]string {
+	out := map[string]string{}
+	var sb []string
+	add := func(v ...interface{}) { sb = append(sb, fmt.Sprint(v...)) }
+	flush := func(name string) { out[name] = strings.Join(sb, ";"); sb = nil }
+
+	// round/time conversion: TestChainNextRound and TestTimeOverflow vectors, and boundary instants
+	for _, v := range [][3]int64{{1000, 2, 1000}, {1001, 2, 1000}, {1002, 2, 1000}, {1003, 2, 1000}, {999, 2, 1000}, {1700000049, 49, 1700000000}, {1700000098, 49, 1700000000},
+		{1 << 40, 30, 1595431050}, {1595431050 + 30*1234567, 30, 1595431050}, {1595431050 + 30*1234567 - 1, 30, 1595431050}, {1 << 50, 4294967295, 0}} {
+		r, t := common.NextRound(v[0], time.Duration(v[1])*time.Second, v[2])
+		add(r, t, common.CurrentRound(v[0], time.Duration(v[1])*time.Second, v[2]))
+	}
+	for _, v := range [][3]uint64{{1, 1, 0}, {3, 1000, 1}, {3, 1000, 10}, {1, 0, math.MaxUint64}, {1, 0, math.MaxUint64 >> 1}, {3, 0, math.MaxUint64 >> 3}, {4294967295, 1 << 32, 2147483650}, {2, 5, 1 << 62}, {1 << 31, 7, 1 << 31}, {30, 1595431050, 5000000}} {
+		add(common.TimeOfRound(time.Duration(v[0])*time.Second, int64(v[1]), v[2]))
+	}
+	flush("time")
+
+	// byte-level helpers
+	add(fmt.Sprintf("%x", mchain.RoundToBytes(0)), fmt.Sprintf("%x", mchain.RoundToBytes(258)), fmt.Sprintf("%x", mchain.RoundToBytes(math.MaxUint64-1)))
+	add(mchain.BytesToRound(mchain.RoundToBytes(123456789)))
+	add(fmt.Sprintf("%x", crypto.RandomnessFromSignature([]byte{1, 2, 3, 4})))
+	add(fmt.Sprintf("%x", sha256.Sum256([]byte("drand"))))
+	hx, err := hex.DecodeString("00ff10AbCd")
+	add(hx, err == nil)
+	_, err = hex.DecodeString("0g")
+	add(err != nil)
+	add(bytes.Compare([]byte{1, 2}, []byte{1, 3}), bytes.Compare([]byte{2}, []byte{1, 9}), bytes.Equal(nil, []byte{}))
+	var buf bytes.Buffer
+	_ = binary.Write(&buf, binary.BigEndian, uint32(30))
+	_ = binary.Write(&buf, binary.BigEndian, int64(1595431050))
+	_ = binary.Write(&buf, binary.LittleEndian, uint16(0x1234))
+	add(fmt.Sprintf("%x", buf.Bytes()))
+	flush("bytes")
+
+	// ids, thresholds, durations
+	add(common.IsDefaultBeaconID(""), common.IsDefaultBeaconID("default"), common.IsDefaultBeaconID("x"), common.GetCanonicalBeaconID(""), common.CompareBeaconIDs("", "default"), common.CompareBeaconIDs("a", "default"))
+	for n := 0; n <= 10; n++ {
+		add(key.MinimumT(n))
+	}
+	add((90 * time.Second).Seconds(), uint32((1<<32-1)*time.Second/time.Second), time.Duration(3)*time.Second/time.Millisecond, (1500 * time.Millisecond).Seconds())
+	add(time.Unix(1700000000, 0).Add(90*time.Second).Unix(), time.Unix(1700000000, 5).Before(time.Unix(1700000000, 6)), time.Unix(10, 0).Sub(time.Unix(4, 500000000)))
+	flush("misc")
+
+	// sorting and maps
+	xs := []int{5, 2, 9, 2, 7, 1}
+	sort.Slice(xs, func(i, j int) bool { return xs[i] < xs[j] })
+	add(xs)
+	ss := []string{"node2", "node10", "node1"}
+	sort.Strings(ss)
+	add(ss)
+	m := map[string]int{}
+	for i, s := range ss {
+		m[s] += i + 1
+		m["all"] += i
+	}
+	delete(m, "node10")
+	add(len(m), m["node1"], m["node2"], m["all"], m["absent"])
+	var u8 uint8 = 250
+	u8 += 10
+	var i32 int32 = math.MaxInt32
+	i32++
+	add(u8, i32, uint64(1)<<63>>62, int64(-7)/2, int64(-7)%2, uint64(7)&^5, 1<<10|3)
+	flush("lang")
+
+	// the in-memory ring over a concrete operation sequence
+	st := memdb.NewStore(10)
+	ctx := context.Background()
+	for _, r := range []uint64{5, 3, 9, 3, 12, 1, 20, 21, 22, 23, 24, 25, 2} {
+		_ = st.Put(ctx, &common.Beacon{Round: r, Signature: []byte{byte(r)}})
+	}
+	_ = st.Del(ctx, 20)
+	n, _ := st.Len(ctx)
+	last, _ := st.Last(ctx)
+	_, e1 := st.Get(ctx, 1)
+	b9, _ := st.Get(ctx, 9)
+	add(n, last.Round, e1 != nil, b9.Round)
+	_ = st.Cursor(ctx, func(ctx context.Context, c mchain.Cursor) error {
+		for b, err := c.First(ctx); err == nil && b != nil; b, err = c.Next(ctx) {
+			add(b.Round)
+		}
+		b, err := c.Seek(ctx, 22)
+		add(b != nil && err == nil && b.Round == 22)
+		_, err = c.Seek(ctx, 20)
+		add(err != nil)
+		return nil
+	})
+	flush("memdb")
+	return out
+}
+
+// ZZ_Self_translator: translator validation on concrete inputs (no symbolic input at all).
+func ZZ_Self_translator() {
+	got := zzSelfGroups()
+	for _, name := range []string{"time", "bytes", "misc", "lang", "memdb"} {
+		zz.Trace("SELF %s = %q", name, got[name])
+	}
+	for _, name := range []string{"time", "bytes", "misc", "lang", "memdb"} {
+		zz.Assert("translator_agrees_with_native_"+name, got[name] == zzSelfExpected[name])
 	}
 }
